@@ -20,16 +20,22 @@ def _targets():
     import importlib
     from ..integrated import VALUE
     out = []
-    names = list(C10.HARNESS)
+    names = []
     for n in VALUE:
-        names += importlib.import_module("vf.checks." + n).HARNESS
+        for h in importlib.import_module("vf.checks." + n).HARNESS:
+            names.append((n, h))
     for fl in ("asan", "nostl"):
-        for h in names:
+        for n, h in [("pipelines", x) for x in C10.HARNESS] + names:
+            if fl != "asan" and n not in NOSTL_QUICK:
+                continue
             out.append(B.Target(os.path.join(B.HARNESS, h + ".cpp"), fl))
     return out
 
 
 TARGETS_QUICK = [_targets]
+
+# supplementary builds in the quick tier are limited to these workloads (compile cost); thorough runs all
+NOSTL_QUICK = ("c03", "c04", "pipelines")
 
 BOUNDS_SITES = ("ndarray_index", "ndarray_offset", "view_index", "view_index_mut", "svec_at", "svec_at_cap", "vec_at", "svec_capacity")
 
@@ -53,6 +59,15 @@ def workloads(ctx):
     rng = ctx.rng.__class__(ctx.seed * 104729 + 10)
     out.append(("pipelines", C10.HARNESS, C10.gen_pipes(rng, ctx.tier), C10.parse_pipe))
     return out
+
+
+def exception_text(cr):
+    """text of a C++ exception caught by the harness (EXC token), if any"""
+    raw = cr.raw or []
+    if "EXC" in raw:
+        k = raw.index("EXC")
+        return " ".join(raw[k:k + 2])
+    return None
 
 
 def accepted(cr):
@@ -79,6 +94,8 @@ def run(ctx):
         acc = HookAcc()
         nrun = 0
         for name, harness, cases, parse in wl:
+            if quick and flavor != "asan" and name not in NOSTL_QUICK:
+                continue
             try:
                 res = V.run_module_cases(harness, cases, flavor, parse=parse)
             except Inconclusive as e:
@@ -105,6 +122,10 @@ def run(ctx):
                     continue
                 if cr.rec is None:
                     continue
+                err = exception_text(cr)
+                if err and ("range" in err or "out_of" in err):
+                    # a bounds-checked container access threw: the library tried to leave the storage
+                    ctx.violation("%s:exception:out_of_range" % op, "[%s] %s %s threw %s" % (flavor, op, cr.m.get("args"), err[:160]), det)
                 ctx.ev()
                 nrun += 1
                 bad = acc.add(cr.hooks)
